@@ -224,6 +224,7 @@ ENGINES["map_mv"]["configs"]["quick"] += [mapcfg("map_mv_qsnap.cfg", 1, 2)]
 
 # ---- reset_remove on states that hold pending removes with multi-actor contexts -------------------------
 ENGINES["map_mv"]["configs"]["quick"] += [mapcfg("map_mv_qreset3.cfg", 1, 1, INV_MAP, reset=True)]
+ENGINES["map_mv"]["configs"]["quick"] += [mapcfg("map_mv_s_collapse.cfg", 1, 2, INV_MAP, reset=True)]   # Map half of fix 4c1b5ee (H8-A)
 
 ENGINES["glist"]["configs"]["quick"] += [{"cfg": "glist_qdup.cfg", "module": "MC_List.tla", "flags": ["--persist", "--laws"], "invariants": INV_LIST}]
 ENGINES["map_mv"]["configs"]["quick"] += [mapcfg("map_mv_s_samectx4.cfg", 1, 2)]
@@ -237,11 +238,22 @@ ENGINES["list"]["configs"]["quick"] += [{"cfg": "list_s_deep.cfg", "module": "MC
 # H1 seeds: a remove that meets an existing pending entry with its own clock; re-keying of the pending table at a four-actor replica
 ENGINES["orswot"]["configs"]["quick"] += [orcfg("orswot_s_samectxr.cfg"), orcfg("orswot_s_nested4.cfg")]
 ENGINES["map_mv"]["configs"]["quick"] += [mapcfg("map_mv_s_samectxr.cfg", 1, 2), mapcfg("map_mv_s_nested4.cfg", 1, 3)]   # the same two shapes for Map's pending key removes
+# H9 seeds: validate_op on identifiers whose outer markers are other actors' dots, out-of-causal-order deliveries
+ENGINES["list"]["configs"]["quick"] += [{"cfg": "list_s_foreign.cfg", "module": "MC_List.tla", "flags": ["--vop-only"], "invariants": ["TypeOK", "ValidateOpOK"]}]
 # MVReg value clocks over four actors (H3 seeds): siblings that agree at both ends and differ in the middle; four-way merges
 ENGINES["mvreg"]["configs"]["quick"] += [{"cfg": "mvreg_s_seen4.cfg", "module": "MC_MVReg.tla", "flags": ["--persist"],
                                          "invariants": ["TypeOK", "RefinesA", "NoDuplicatePair", "Converge", "DupNoop", "StaleNoop", "FreshDot"]}]
 ENGINES["ident"]["configs"]["quick"] += [{"cfg": "ident_q3.cfg", "module": "MC_Ident.tla", "vectors": True, "invariants": ["OrderOK", "DenseOK"]}]
-ENGINES["clocks"]["configs"]["quick"] += [{"cfg": "clocks_q4.cfg", "module": "MC_Clocks.tla", "vectors": True, "invariants": ["OrderOK", "LatticeOK", "ForgetOK", "DotOK"]}]
+ENGINES["ident"]["configs"]["thorough"] += [{"cfg": "ident_q3.cfg", "module": "MC_Ident.tla", "vectors": True, "invariants": ["OrderOK", "DenseOK"]}]
+def _clk(cfg, **kw):
+    d = {"cfg": cfg, "module": "MC_Clocks.tla", "vectors": True, "invariants": ["OrderOK", "LatticeOK", "ForgetOK", "DotOK"]}
+    d.update(kw)
+    return d
+
+
+# four actors (H6); six actors x counters 0..1 (H8-B: paths taken only when one clock is much smaller than the other)
+ENGINES["clocks"]["configs"]["quick"] += [_clk("clocks_q4.cfg"), _clk("clocks_q6.cfg")]
+ENGINES["clocks"]["configs"]["thorough"] = list(ENGINES["clocks"]["configs"]["quick"]) + [_clk("clocks_t.cfg"), _clk("clocks_t5.cfg", timeout=3000)]
 
 # ---- thorough tier = quick configs + larger exhaustive models ----------------------------------
 def _t(engine, extra):
@@ -266,8 +278,8 @@ _t("merkle", [{"cfg": "merkle_th.cfg", "module": "MC_Merkle.tla", "flags": ["--p
 
 # ---- more implementation traces: List, GList, MerkleReg --------------------------------------------
 ENGINES["list"]["traces"] = {
-    "quick": [tr("causal4", "trace_list.cfg", "Trace_List.tla", "--n", 4, "--histories", 40, "--steps", 80, "--maxops", 16, "--regime", "causal")],
-    "thorough": [tr("causal4", "trace_list.cfg", "Trace_List.tla", "--n", 4, "--histories", 100, "--steps", 60, "--maxops", 12, "--regime", "causal")],
+    "quick": [tr("causal4", "trace_list.cfg", "Trace_List.tla", "--n", 4, "--histories", 40, "--steps", 80, "--maxops", 16, "--regime", "causal", "--deep-gap", 70)],
+    "thorough": [tr("causal4", "trace_list.cfg", "Trace_List.tla", "--n", 4, "--histories", 100, "--steps", 60, "--maxops", 12, "--regime", "causal", "--deep-gap", 200)],
 }
 ENGINES["list"]["trace_props"] = {"seq": ["C12", "C01"], "op": ["C12", "C13", "C14"], "index": ["C13"]}
 ENGINES["glist"]["traces"] = {
